@@ -284,7 +284,7 @@ TIE = (" The handler bodies themselves are regenerated from the code on every ru
        "above are theorems about what the code says now; an equality that stops checking triggers a model-guided search (DriverGen.lean: "
        "model and translation side by side over random and bounded-exhaustive histories) whose diverging histories are replayed on the "
        "implementation under this property's oracle.")
-for _k in ("C03", "C04", "C05", "C06", "C07", "C08", "C10", "C11", "C12", "C19"):
+for _k in ("C03", "C04", "C05", "C06", "C07", "C08", "C10", "C11", "C12", "C13", "C19"):
     CLAIMED[_k]["text"] += TIE
     CLAIMED[_k]["technique"] += " + handler bodies translated from the Python AST with equality proofs (BodiesEq)"
     CLAIMED[_k]["note"] += (" tools/translate.py is trusted to render the Python subset it accepts faithfully into the vocabulary of Model/Lit.lean "
@@ -293,7 +293,7 @@ for _k in ("C03", "C04", "C05", "C06", "C07", "C08", "C10", "C11", "C12", "C19")
 STREAM_TIE = (" StreamTransport's four methods are regenerated from the code on every run as well (tools/translate.py -> Generated/StreamBodies.lean over "
               "Model/LitStream.lean) and Lemmas/StreamBodiesEq.lean proves connect/disconnect/read/write equal to the model's Transport.* for every "
               "transport object and every injected fault.")
-for _k in ("C03", "C17"):
+for _k in ("C03", "C16", "C17"):
     CLAIMED[_k]["text"] += STREAM_TIE
 CODEC_TIE = (" The decoder's validators (validate_command, validate_message_type, validate_child_id, CommandField.validate_command, to_dict) are "
              "regenerated from the code on every run (tools/translate.py -> Generated/CodecBodies.lean over Model/LitCodec.lean, with marshmallow's "
